@@ -533,6 +533,9 @@ def check_main(pid, tier, seed, nworkers=None):
         "runs_per_hour": int(m["runs"] / max(wall, 1e-6) * 3600),
         "seeds_per_hour": int(m["runs"] / max(wall, 1e-6) * 3600),
         "counts": dict(sorted(m["counts"].items())),
+        "faults_and_perturbations_fired": {k: v for k, v in sorted(m["counts"].items()) if k.startswith("fault:") or k in (
+            "short-read", "short-write", "forced-fast-engine-failures", "junk-lines", "failed-writes", "thread-switches",
+            "preemption-points", "restarts", "fault-masked-by-lasio") or k.startswith("change:")},
         "skipped_by_definition": m["skipped"],
         "stopped_early_by_wall_cap": m["stopped_early"],
         "known_findings_matched": m["known"],
